@@ -1429,6 +1429,14 @@ class Interp:
     def ex_Name(self, n, st):
         return [(st, self.lookup_name(n.id, st), None)]
 
+    def is_runtime_memo(self, t):
+        """t is a module-level container that is empty when the module is
+        imported and written only by functions (a memo, clause DM).  Under
+        DM (key-complete, nothing remembered on failure, entries never
+        changed) a call behaves as its FIRST call: the lookup misses."""
+        return kind(t) == 'global' and \
+            (t[1], t[2]) in self.prog.runtime_memos()
+
     def lookup_name(self, name, st):
         if name in st.store:
             return st.store[name]
@@ -1754,6 +1762,8 @@ class Interp:
         return out
 
     def compare(self, op, a, b, st=None):
+        if op in ('in', 'not in') and self.is_runtime_memo(b):
+            return C(op == 'not in')
         oka, pa = try_py(a)
         okb, pb = try_py(b)
         if oka and okb and op not in ('is', 'is not'):
@@ -1834,6 +1844,10 @@ class Interp:
                 out.append((s2, None, exc))
                 continue
             b, i = vals
+            if self.is_runtime_memo(b) and isinstance(n.ctx, ast.Load):
+                s2.emit(('memo-miss', b, self._site(n)))
+                out.append((s2, None, fresh('exc', 'subscript')))
+                continue
             v = self.subscript(b, i, s2)
             if self._try and self.exc_edges and kind(i) != 'slice' \
                     and not is_const(v):
@@ -2129,6 +2143,25 @@ class Interp:
     def call(self, n, fn, args, kwargs, st):
         target = self.call_target(fn)
         site = self._site(n)
+        if kind(fn) == 'attr' and kind(fn[1]) == 'call' and \
+                fn[1][1] == 'struct.Struct' and len(fn[1][3]) == 1 and \
+                fn[2] in ('pack', 'unpack', 'unpack_from', 'pack_into',
+                          'iter_unpack'):
+            # a compiled Struct is the module-level function with its format
+            args = (fn[1][3][0],) + tuple(args)
+            fn = ('ext', 'struct.' + fn[2])
+            target = fn[1]
+        if kind(fn) == 'attr' and self.is_runtime_memo(fn[1]):
+            st.emit(('memo-call', fn[1], fn[2], args, site))
+            if fn[2] == 'get':
+                return [(st, args[1] if len(args) > 1 else NONE, None)]
+            if fn[2] == 'setdefault' and len(args) == 2:
+                return [(st, args[1], None)]
+            if fn[2] in ('add', 'append', 'update', 'insert', 'extend',
+                         'appendleft', 'discard', 'clear'):
+                return [(st, NONE, None)]
+            if fn[2] == 'pop' and len(args) == 2:
+                return [(st, args[1], None)]
         # pure folding
         if kind(fn) == 'builtin' and fn[1] in _PURE_BUILTINS and not kwargs:
             oks = [try_py(a) for a in args]
